@@ -436,6 +436,13 @@ func checkGetSetErr(c GetSetErr) error {
 		if err == nil || !ok || a != abv || g != "" {
 			return fmt.Errorf("v%s Get(%q) = %q, %v; want \"\" and *ErrInvalidMetric{%q}", p.V.Name, abv, g, err, abv)
 		}
+		// the error value keeps carrying its abbreviation after later failing calls
+		text := err.Error()
+		o.Get("Q" + abv)
+		o.Set("QQ"+abv, val)
+		if a2, _ := p.AsInvalidMetric(err); a2 != abv || err.Error() != text {
+			return fmt.Errorf("v%s: the error returned by Get(%q) changed after later failing calls: now %q (abbreviation %q), was %q", p.V.Name, abv, err.Error(), a2, text)
+		}
 	case "set-unknown":
 		if p.V.Has(abv) {
 			return nil
@@ -444,6 +451,12 @@ func checkGetSetErr(c GetSetErr) error {
 		a, ok := p.AsInvalidMetric(err)
 		if err == nil || !ok || a != abv {
 			return fmt.Errorf("v%s Set(%q,%q) = %v; want *ErrInvalidMetric{%q}", p.V.Name, abv, val, err, abv)
+		}
+		text := err.Error()
+		o.Set("Q"+abv, val)
+		o.Get("QQ" + abv)
+		if a2, _ := p.AsInvalidMetric(err); a2 != abv || err.Error() != text {
+			return fmt.Errorf("v%s: the error returned by Set(%q,..) changed after later failing calls: now %q (abbreviation %q), was %q", p.V.Name, abv, err.Error(), a2, text)
 		}
 	case "set-illegal":
 		m := p.V.Metric(abv)
